@@ -12,6 +12,7 @@ import HealSparse.Lemmas.FitsIO
 import HealSparse.Model.FitsIO
 import HealSparse.Props.C04
 import HealSparse.Props.C10
+import HealSparse.Lemmas.ApiRoundTrip
 namespace HS
 namespace C03
 
@@ -96,6 +97,639 @@ theorem read_back_same (c : Cfg) (vc : VCfg V) (s : State V) (h : Inv c vc s) :
 example : (readPartial (V := Int) ⟨3, 1⟩ ⟨-1, fun x => x != -1⟩
     (writeFits ⟨#[4, -2, -2], #[-1, -1, 7, -1, -1, 9]⟩) [2, 1, 7]).map (·.sp) = some #[-1, -1, 7, -1] := by
   decide +kernel
+
+
+/-! ## API level: `apiRead (apiWrite m md) …`
+
+The theorems above are about the generic serialisation core.  The ones below are about the API
+functions themselves (`apiWrite` = `_write_map_fits`, `apiRead` = `HealSparseMap.read`): header
+keywords, kind / dtype / sentinel recovery, error behaviour.  Helpers: Lemmas/ApiRoundTrip.lean.
+
+FINDING (model level).  "For every `m.Ok`, reading back what was written returns `m`" is FALSE:
+`MapObj.Ok` does not say that a numeric plain map has one of numpy's dtypes and a numeric
+sentinel, and the reader decides the kind from the header alone.  `api_read_write_full_false`
+is the counterexample (an int32 map object with sentinel `False` comes back as a boolean map;
+`RoundTrip.oddDtMap`, an `int12` map, comes back as int8; `RoundTrip.hugeDtMap`, `int128`, is
+refused).  No protocol constructor builds such objects, so this is a gap of the invariant, not
+an observed defect of the library.  The exact condition is `MapObj.FileTyped`
+(`api_read_write_full_iff`); under `SentOK` alone (hence for every `m.Ok`, hence in every
+reachable world) the CONTENT still round-trips (`api_read_write_full_content`,
+`reachable_write_read_content`). -/
+
+open WFFiles
+
+/-- the request names at least one covered coverage pixel of the map -/
+def Requested (m : MapObj) (px : List Nat) : Prop :=
+  ∃ k ∈ px, k < m.c.ncov ∧ covered m.c m.st k = true
+
+instance (m : MapObj) (px : List Nat) : Decidable (Requested m px) := by
+  unfold Requested; infer_instance
+
+/-- **(a) full read**: kind, sentinel, orders and both arrays are recovered exactly, for every kind
+    (plain of every dtype incl. bool, bit-packed, wide mask, record incl. boolean primary) and
+    every sentinel.  PARTIAL: the hypothesis `FileTyped` is needed (`api_read_write_full_false`)
+    and is the weakest possible (`api_read_write_full_iff`).  `WF` is not needed. -/
+theorem api_read_write_full_partial (m : MapObj) (md : List (String × String)) (ht : m.FileTyped) :
+    apiRead (apiWrite m md) none = .ok { m with cache := none, view := none } :=
+  apiRead_apiWrite_none m md ht
+
+/-- the full round trip holds EXACTLY for the `FileTyped` map objects -/
+theorem api_read_write_full_iff (m : MapObj) (md : List (String × String)) :
+    apiRead (apiWrite m md) none = .ok { m with cache := none, view := none } ↔ m.FileTyped :=
+  apiRead_apiWrite_none_iff m md
+
+/-- in terms of the predicates of the invariant campaign: `Ok` + the numeric-plain clause; the
+    map read back is `Ok` again -/
+theorem api_read_write_full_ok (m : MapObj) (md : List (String × String)) (h : m.Ok)
+    (hnum : ∀ dt, m.kind = .plain dt → dt ≠ .bool → dt.real = true ∧ m.sent.isBoolV = false) :
+    apiRead (apiWrite m md) none = .ok { m with cache := none, view := none } ∧
+      ({ m with cache := none, view := none } : MapObj).Ok :=
+  ⟨apiRead_apiWrite_none m md ((m.fileTyped_iff h.2.1 h.2.2).2 hnum), h⟩
+
+/-- **content round trip for every sentinel-compatible map** (every `m.Ok`): whatever the full
+    read returns is the map up to the kind label, with the same blank cell and validity test,
+    hence the same dense view -/
+theorem api_read_write_full_content (m : MapObj) (md : List (String × String)) (hs : m.SentOK)
+    {m' : MapObj} (h : apiRead (apiWrite m md) none = .ok m') :
+    m' = { m with kind := m'.kind, cache := none, view := none } ∧
+      fileKind (apiWrite m md) = some m'.kind ∧ m'.c = m.c ∧ m'.vc = m.vc ∧ ∀ p, m'.abs p = m.abs p := by
+  obtain ⟨h1, h2, h3, h4, h5, h6, h7, h8, h9, _⟩ := apiRead_apiWrite_content hs h
+  refine ⟨?_, h8, h6, h7, ?_⟩
+  · have := h9 rfl
+    cases m'; cases m
+    simp only at h1 h2 h3 h4 h5 this
+    subst h1 h2 h3 h4 h5 this
+    rfl
+  · intro p
+    unfold MapObj.abs
+    rw [h6, h7, h9 rfl]
+
+/-- **the unrestricted statement is false** -/
+theorem api_read_write_full_false :
+    ∃ m : MapObj, m.Ok ∧ apiRead (apiWrite m []) none ≠ .ok { m with cache := none, view := none } :=
+  ⟨RoundTrip.boolSentMap, RoundTrip.boolSentMap_ok,
+    fun h => RoundTrip.boolSentMap_not_typed ((api_read_write_full_iff _ _).1 h)⟩
+
+
+/-! ### (b) partial read -/
+
+/-- **rejection, any sentinel-compatible map**: the read raises (always `RuntimeError`) exactly
+    when the header does not determine a kind, or the request has duplicates, or it names no
+    covered coverage pixel (out-of-range entries are ignored, not refused) -/
+theorem api_read_pixels_error_iff (m : MapObj) (md : List (String × String)) (px : List Nat)
+    (hs : m.SentOK) :
+    (∃ e, apiRead (apiWrite m md) (some px) = .error e) ↔
+      (fileKind (apiWrite m md) = none ∨ ¬ px.Nodup ∨ ¬ Requested m px) := by
+  cases hk : fileKind (apiWrite m md) with
+  | none =>
+    rw [apiRead_some_eq, hk]
+    simp
+  | some k =>
+    rw [apiRead_apiWrite_some_eq m md px hs hk]
+    have hrej := (readPartial_writeFits m.c m.vc m.st px)
+    have hiff : readPartial m.c m.vc (writeFits m.st) px = none ↔ (¬ px.Nodup ∨ ¬ Requested m px) := by
+      unfold Requested
+      rw [readPartial_writeFits, ← eraseDups_length_lt_iff, ← partialPixels_isEmpty_iff]
+      by_cases h1 : px.eraseDups.length < px.length
+      · simp [h1]
+      · rw [if_neg h1]
+        by_cases h2 : (partialPixels m.c (writeFits m.st) px).isEmpty = true
+        · simp [h2]
+        · simp [h1, h2]
+    cases hr : readPartial m.c m.vc (writeFits m.st) px with
+    | none =>
+      have := hiff.1 hr
+      simp [this]
+    | some s =>
+      have : ¬ (¬ px.Nodup ∨ ¬ Requested m px) := fun h => by
+        have := hiff.2 h
+        rw [hr] at this
+        cases this
+      simp only [reduceCtorEq, false_or]
+      constructor
+      · rintro ⟨e, he⟩; cases he
+      · intro h; exact absurd h this
+
+/-- … and the error is always `RuntimeError` -/
+theorem api_read_error_kind {f : FileObj} {px : Option (List Nat)} {e : Err}
+    (h : apiRead f px = .error e) : e = .runtime := apiRead_error_runtime h
+
+/-- **rejection, typed map**: exactly duplicates or no requested pixel covered -/
+theorem api_read_pixels_error_iff_typed (m : MapObj) (md : List (String × String)) (px : List Nat)
+    (ht : m.FileTyped) :
+    apiRead (apiWrite m md) (some px) = .error .runtime ↔ (¬ px.Nodup ∨ ¬ Requested m px) := by
+  have := api_read_pixels_error_iff m md px ht.sentOK
+  rw [(fileKind_apiWrite_iff m md).2 ht] at this
+  simp only [reduceCtorEq, false_or] at this
+  rw [← this]
+  constructor
+  · intro h; exact ⟨_, h⟩
+  · rintro ⟨e, he⟩; rw [he, apiRead_error_runtime he]
+
+/-- **partial read, any well-formed sentinel-compatible map** whose header determines a kind `k`:
+    a duplicate-free request naming a covered pixel succeeds; the result is the map with its
+    storage replaced (and kind label `k`), well formed, and exactly the restriction of the map to
+    the requested covered coverage pixels -/
+theorem api_read_pixels_spec (m : MapObj) (md : List (String × String)) (px : List Nat)
+    (hw : m.WF) (hs : m.SentOK) {k : Kind} (hk : fileKind (apiWrite m md) = some k)
+    (hnd : px.Nodup) (hreq : Requested m px) :
+    ∃ m', apiRead (apiWrite m md) (some px) = .ok m' ∧
+      m' = { m with kind := k, st := m'.st, cache := none, view := none } ∧
+      m'.c = m.c ∧ m'.vc = m.vc ∧ m'.WF ∧ m'.SentOK ∧
+      (∀ p, p < m.npix → m'.abs p =
+          if decide ((p >>> m.c.shift) ∈ px) && covered m.c m.st (p >>> m.c.shift) then m.abs p
+          else m.kind.blank m.sent) ∧
+      (∀ j, j < m.c.ncov → covered m'.c m'.st j = (decide (j ∈ px) && covered m.c m.st j)) := by
+  obtain ⟨r, hr, hinv, habs, hcov⟩ := read_partial_spec m.c m.vc m.st px hw.2 hnd hreq
+  have hread := apiRead_apiWrite_some_eq m md px hs hk
+  rw [hr] at hread
+  have hvc := vc_of_fileKind_apiWrite hs hk
+  have hvc' : ({ m with kind := k, st := r, cache := none, view := none } : MapObj).vc = m.vc := hvc
+  refine ⟨_, hread, rfl, rfl, hvc', ?_, ?_, ?_, ?_⟩
+  · refine ⟨hw.1, ?_⟩
+    rw [hvc']
+    exact hinv
+  · exact SentOK.apiRead hread
+  · intro p hp
+    unfold MapObj.abs
+    rw [hvc']
+    exact habs p hp
+  · intro j hj
+    exact hcov j hj
+
+/-- **partial read, typed map**: additionally the kind is the map's, and `Ok` is kept -/
+theorem api_read_pixels_spec_typed (m : MapObj) (md : List (String × String)) (px : List Nat)
+    (hw : m.WF) (ht : m.FileTyped) (hnd : px.Nodup) (hreq : Requested m px) :
+    ∃ m', apiRead (apiWrite m md) (some px) = .ok m' ∧
+      m' = { m with st := m'.st, cache := none, view := none } ∧ m'.WF ∧ m'.FileTyped ∧
+      (m.KindOk → m'.Ok) ∧
+      (∀ p, p < m.npix → m'.abs p =
+          if decide ((p >>> m.c.shift) ∈ px) && covered m.c m.st (p >>> m.c.shift) then m.abs p
+          else m.kind.blank m.sent) ∧
+      (∀ j, j < m.c.ncov → covered m'.c m'.st j = (decide (j ∈ px) && covered m.c m.st j)) := by
+  obtain ⟨m', hr, he, _, _, hwf, hso, habs, hcov⟩ :=
+    api_read_pixels_spec m md px hw ht.sentOK ((fileKind_apiWrite_iff m md).2 ht) hnd hreq
+  have he' : m' = { m with st := m'.st, cache := none, view := none } := by
+    rw [he]
+  refine ⟨m', hr, he', hwf, FileTyped.apiRead_apiWrite ht hr, ?_, habs, hcov⟩
+  intro hko
+  refine ⟨hwf, ?_, hso⟩
+  rw [he']
+  exact hko
+
+
+/-! ### (c) continuation: the map read back is interchangeable with the (restricted) original -/
+
+/-- full read: the state read back is content-equal to (in fact identical with) the original -/
+theorem api_read_full_same (m : MapObj) (md : List (String × String)) (hw : m.WF) (hs : m.SentOK)
+    {m' : MapObj} (h : apiRead (apiWrite m md) none = .ok m') :
+    m'.c = m.c ∧ m'.vc = m.vc ∧ C10.Same m.c m.vc m'.st m.st := by
+  obtain ⟨_, _, _, _, _, h6, h7, _, h9, _⟩ := apiRead_apiWrite_content hs h
+  refine ⟨h6, h7, ?_⟩
+  rw [h9 rfl]
+  exact ⟨hw.2, hw.2, fun _ _ => rfl, fun _ _ => rfl⟩
+
+/-- partial read: the state read back is content-equal to EVERY well-formed representation `s` of
+    the restriction of the map to the requested covered coverage pixels (whatever its block order
+    or allocation history) -/
+theorem api_read_pixels_same (m : MapObj) (md : List (String × String)) (px : List Nat)
+    (hw : m.WF) (hs : m.SentOK) {m' : MapObj} (h : apiRead (apiWrite m md) (some px) = .ok m')
+    (s : State Val) (hinv : Inv m.c m.vc s)
+    (habs : ∀ p, p < m.npix → abs m.c m.vc s p =
+        if decide ((p >>> m.c.shift) ∈ px) && covered m.c m.st (p >>> m.c.shift) then m.abs p
+        else m.kind.blank m.sent)
+    (hcov : ∀ j, j < m.c.ncov → covered m.c s j = (decide (j ∈ px) && covered m.c m.st j)) :
+    m'.c = m.c ∧ m'.vc = m.vc ∧ C10.Same m.c m.vc m'.st s := by
+  have hne : ¬ ∃ e, apiRead (apiWrite m md) (some px) = .error e := by
+    rintro ⟨e, he⟩; rw [h] at he; cases he
+  rw [api_read_pixels_error_iff m md px hs] at hne
+  have hk : ∃ k, fileKind (apiWrite m md) = some k := by
+    cases hk : fileKind (apiWrite m md) with
+    | none => exact absurd (Or.inl hk) hne
+    | some k => exact ⟨k, rfl⟩
+  obtain ⟨k, hk⟩ := hk
+  have hnd : px.Nodup := Classical.not_not.1 fun hn => hne (Or.inr (Or.inl hn))
+  have hreq : Requested m px := Classical.not_not.1 fun hn => hne (Or.inr (Or.inr hn))
+  obtain ⟨m'', hr, _, hc, hvc, hwf, _, habs', hcov'⟩ := api_read_pixels_spec m md px hw hs hk hnd hreq
+  rw [h] at hr
+  cases hr
+  refine ⟨hc, hvc, ?_, hinv, ?_, ?_⟩
+  · have := hwf.2
+    rw [hc, hvc] at this
+    exact this
+  · intro p hp
+    have := habs' p hp
+    unfold MapObj.abs at this
+    rw [hc, hvc] at this
+    rw [this, habs p hp]
+    rfl
+  · intro j hj
+    have := hcov' j hj
+    rw [hc] at this
+    rw [this, hcov j hj]
+
+/-- hence every later history of updates (any operations, duplicates, either append mode) keeps
+    the two interchangeable (`C10.history_interchangeable`), and all later queries agree
+    (`C10.same_queries`) -/
+theorem api_read_pixels_continuation (m : MapObj) (md : List (String × String)) (px : List Nat)
+    (hw : m.WF) (hs : m.SentOK) {m' : MapObj} (h : apiRead (apiWrite m md) (some px) = .ok m')
+    (s : State Val) (hinv : Inv m.c m.vc s)
+    (habs : ∀ p, p < m.npix → abs m.c m.vc s p =
+        if decide ((p >>> m.c.shift) ∈ px) && covered m.c m.st (p >>> m.c.shift) then m.abs p
+        else m.kind.blank m.sent)
+    (hcov : ∀ j, j < m.c.ncov → covered m.c s j = (decide (j ∈ px) && covered m.c m.st j))
+    (hist : List (C01.UpdOp Val)) (hr : ∀ o ∈ hist, o.inRange m.c) :
+    C10.Same m.c m.vc (C01.runHist m.c m.vc m'.st hist) (C01.runHist m.c m.vc s hist) :=
+  C10.history_interchangeable m.c m.vc _ _
+    (api_read_pixels_same m md px hw hs h s hinv habs hcov).2.2 hist hr
+
+/-- the order of the request does not matter: reading with a permuted request gives a
+    content-equal map (or is refused alike) -/
+theorem api_read_pixels_perm (m : MapObj) (md : List (String × String)) (px px' : List Nat)
+    (hw : m.WF) (hs : m.SentOK) (hp : px.Perm px') {m' : MapObj}
+    (h : apiRead (apiWrite m md) (some px) = .ok m') :
+    ∃ m'', apiRead (apiWrite m md) (some px') = .ok m'' ∧ m''.kind = m'.kind ∧
+      C10.Same m.c m.vc m'.st m''.st := by
+  have hne : ¬ ∃ e, apiRead (apiWrite m md) (some px) = .error e := by
+    rintro ⟨e, he⟩; rw [h] at he; cases he
+  rw [api_read_pixels_error_iff m md px hs] at hne
+  have hk : ∃ k, fileKind (apiWrite m md) = some k := by
+    cases hk : fileKind (apiWrite m md) with
+    | none => exact absurd (Or.inl hk) hne
+    | some k => exact ⟨k, rfl⟩
+  obtain ⟨k, hk⟩ := hk
+  have hnd : px.Nodup := Classical.not_not.1 fun hn => hne (Or.inr (Or.inl hn))
+  have hreq : Requested m px := Classical.not_not.1 fun hn => hne (Or.inr (Or.inr hn))
+  have hnd' : px'.Nodup := hp.nodup_iff.1 hnd
+  have hreq' : Requested m px' := by
+    obtain ⟨j, hj, h2⟩ := hreq
+    exact ⟨j, hp.mem_iff.1 hj, h2⟩
+  obtain ⟨m1, hr1, he1, _⟩ := api_read_pixels_spec m md px hw hs hk hnd hreq
+  obtain ⟨m'', hr, he, hc, hvc, hwf, _, habs', hcov'⟩ := api_read_pixels_spec m md px' hw hs hk hnd' hreq'
+  rw [h] at hr1; cases hr1
+  refine ⟨m'', hr, by rw [he, he1], ?_⟩
+  refine (api_read_pixels_same m md px hw hs h m''.st ?_ ?_ ?_).2.2
+  · have := hwf.2
+    rw [hc, hvc] at this
+    exact this
+  · intro p hpp
+    have := habs' p hpp
+    unfold MapObj.abs at this
+    rw [hc, hvc] at this
+    rw [this]
+    simp only [hp.mem_iff]
+    rfl
+  · intro j hj
+    have := hcov' j hj
+    rw [hc] at this
+    rw [this]
+    simp only [hp.mem_iff]
+
+/-- **`read(file, pixels=[k])` is `get_single_covpix_map(k)`**: for a covered coverage pixel the
+    two states are identical, not merely content-equal -/
+theorem api_read_single_covpix (m : MapObj) (md : List (String × String)) (k : Nat)
+    (ht : m.FileTyped) (hk : k < m.c.ncov) (hc : covered m.c m.st k = true) :
+    apiRead (apiWrite m md) (some [k]) =
+      .ok { m with st := singleCovpixMap m.c m.vc m.st k, cache := none, view := none } := by
+  rw [apiRead_apiWrite_some_eq m md [k] ht.sentOK ((fileKind_apiWrite_iff m md).2 ht),
+    readPartial_singleton m.c m.vc m.st k hk hc]
+
+
+/-! ### (c) at the API level: later `update_values_pix` calls cannot tell the two apart -/
+
+/-- a request that names every covered coverage pixel reads back a map content-equal to the
+    original (the blocks come back sorted by coverage pixel, so the arrays may differ) -/
+theorem api_read_pixels_all_same (m : MapObj) (md : List (String × String)) (px : List Nat)
+    (hw : m.WF) (hs : m.SentOK) {m' : MapObj} (h : apiRead (apiWrite m md) (some px) = .ok m')
+    (hall : ∀ k, k < m.c.ncov → covered m.c m.st k = true → k ∈ px) :
+    m'.c = m.c ∧ m'.vc = m.vc ∧ C10.Same m.c m.vc m'.st m.st := by
+  refine api_read_pixels_same m md px hw hs h m.st hw.2 ?_ ?_
+  · intro p hp
+    cases hc : covered m.c m.st (p >>> m.c.shift) with
+    | true =>
+      have := hall _ (covpix_lt m.c p hp) hc
+      simp only [this, decide_true, Bool.and_self, if_true]
+      rfl
+    | false =>
+      simp only [Bool.and_false, Bool.false_eq_true, if_false]
+      exact hw.2.abs_uncovered hp hc
+  · intro j hj
+    cases hc : covered m.c m.st j with
+    | true => simp [hall j hj hc]
+    | false => simp
+
+/-- **continuation, API level**: the map read back (partial read) and ANY map object `m₂` of the
+    same configuration / kind / sentinel / view flag holding the restriction of the original go
+    through every list of `update_values_pix` calls alike — the same error at the same call, or
+    content-equal results (`UpdRel`, Lemmas/ApiRoundTrip.lean: argument validation, the
+    view test and the float exactness test included) -/
+theorem api_read_pixels_updates (m : MapObj) (md : List (String × String)) (px : List Nat)
+    (hw : m.WF) (hs : m.SentOK) {m' : MapObj} (h : apiRead (apiWrite m md) (some px) = .ok m')
+    (m₂ : MapObj) (hm₂ : m₂.Same m') (hinv : Inv m.c m.vc m₂.st)
+    (habs : ∀ p, p < m.npix → abs m.c m.vc m₂.st p =
+        if decide ((p >>> m.c.shift) ∈ px) && covered m.c m.st (p >>> m.c.shift) then m.abs p
+        else m.kind.blank m.sent)
+    (hcov : ∀ j, j < m.c.ncov → covered m.c m₂.st j = (decide (j ∈ px) && covered m.c m.st j))
+    (calls : List UpdCall) :
+    UpdRel m' (runUpdates m' calls) (runUpdates m₂ calls) := by
+  obtain ⟨hc, hvc, hS⟩ := api_read_pixels_same m md px hw hs h m₂.st hinv habs hcov
+  rw [← hc, ← hvc] at hS
+  exact runUpdates_same calls m' m₂ hm₂ hS
+
+/-- **continuation after a full read of a typed map**: the map read back and the original (an
+    owning object) go through every list of `update_values_pix` calls alike -/
+theorem api_read_full_updates (m : MapObj) (md : List (String × String)) (hw : m.WF)
+    (ht : m.FileTyped) (hv : m.view = none) (calls : List UpdCall) :
+    ∃ m', apiRead (apiWrite m md) none = .ok m' ∧
+      UpdRel m (runUpdates m calls) (runUpdates m' calls) := by
+  refine ⟨_, api_read_write_full_partial m md ht, ?_⟩
+  refine runUpdates_same calls m { m with cache := none, view := none }
+    ⟨rfl, rfl, rfl, rfl, by rw [hv]⟩ ?_
+  exact ⟨hw.2, hw.2, fun _ _ => rfl, fun _ _ => rfl⟩
+
+/-- the single call, for reference: `apiUpdate` on content-equal map objects -/
+theorem api_update_same (m₁ m₂ : MapObj) (hm : m₂.Same m₁) (hS : C10.Same m₁.c m₁.vc m₁.st m₂.st)
+    (op : String) (pix : List Nat) (vals : Option (List Val)) (single : Bool)
+    (rawUnique : Option Bool) :
+    UpdRel m₁ (apiUpdate m₁ op pix vals single rawUnique)
+      (apiUpdate m₂ op pix vals single rawUnique) :=
+  apiUpdate_same m₁ m₂ hm hS op pix vals single rawUnique
+
+/-! ### (d) user metadata, at the World level
+
+`apiWrite m md` stores `md` verbatim in the file (`apiWrite_mdata`); `apiRead` does not look at
+it.  The driver keeps user metadata per map name: `write` passes the source name's metadata,
+`read` makes the file's metadata the metadata of the result name. -/
+
+/-- the file carries exactly the metadata handed to the writer -/
+theorem api_write_mdata (m : MapObj) (md : List (String × String)) : (apiWrite m md).mdata = md := rfl
+
+/-- **write → read in any world**: if the reader accepts the file (full or partial read), both
+    steps answer `ok`, the result name is bound to the map read, and the source map's user
+    metadata has travelled to the result name -/
+theorem world_write_read (w : World) (aW aR : Args) (n : String) (rest : List String)
+    (m m' : MapObj) (px : Option (List Nat))
+    (hpos : aW.pos = n :: rest) (hget : w.get? n = some m)
+    (hf : aR.getD "f" "f" = aW.getD "f" "f")
+    (hpx : (aR.get? "pixels" = none ∧ px = none) ∨
+        ∃ t l, aR.get? "pixels" = some t ∧ parseNats t = some l ∧ px = some l)
+    (hr : apiRead (apiWrite m (w.metaOf n)) px = .ok m') :
+    (stepArgs w "write" aW).2 = "ok" ∧
+    (stepArgs (stepArgs w "write" aW).1 "read" aR).2 = "ok" ∧
+    (stepArgs (stepArgs w "write" aW).1 "read" aR).1.get? (aR.getD "r" "tmp")
+      = some { m' with view := none } ∧
+    (stepArgs (stepArgs w "write" aW).1 "read" aR).1.metaOf (aR.getD "r" "tmp") = w.metaOf n :=
+  write_read_world w aW aR n rest m m' px hpos hget hf hpx hr
+
+/-- **metadata round trip**: `getmeta` on the map read back answers, for every key, what
+    `getmeta` answered on the source map -/
+theorem world_getmeta_round_trip (w : World) (aW aR aG aG' : Args) (n : String)
+    (rest rest' rest'' : List String) (m m' : MapObj) (px : Option (List Nat))
+    (hpos : aW.pos = n :: rest) (hget : w.get? n = some m)
+    (hf : aR.getD "f" "f" = aW.getD "f" "f")
+    (hpx : (aR.get? "pixels" = none ∧ px = none) ∨
+        ∃ t l, aR.get? "pixels" = some t ∧ parseNats t = some l ∧ px = some l)
+    (hr : apiRead (apiWrite m (w.metaOf n)) px = .ok m')
+    (hG : aG.pos = aR.getD "r" "tmp" :: rest') (hG' : aG'.pos = n :: rest'')
+    (hkey : aG.getD "k" "" = aG'.getD "k" "") :
+    (stepArgs (stepArgs (stepArgs w "write" aW).1 "read" aR).1 "getmeta" aG).2
+      = (stepArgs w "getmeta" aG').2 :=
+  getmeta_write_read w aW aR aG aG' n rest rest' rest'' m m' px hpos hget hf hpx hr hG hG' hkey
+
+/-- for a `FileTyped` map the full read cannot fail: the round trip through the world is
+    unconditional and binds the map itself (cache reset, owning its storage) -/
+theorem world_write_read_full (w : World) (aW aR : Args) (n : String) (rest : List String)
+    (m : MapObj) (hpos : aW.pos = n :: rest) (hget : w.get? n = some m) (ht : m.FileTyped)
+    (hf : aR.getD "f" "f" = aW.getD "f" "f") (hpx : aR.get? "pixels" = none) :
+    (stepArgs (stepArgs w "write" aW).1 "read" aR).2 = "ok" ∧
+    (stepArgs (stepArgs w "write" aW).1 "read" aR).1.get? (aR.getD "r" "tmp")
+      = some { m with cache := none, view := none } ∧
+    (stepArgs (stepArgs w "write" aW).1 "read" aR).1.metaOf (aR.getD "r" "tmp") = w.metaOf n :=
+  write_read_full_world w aW aR n rest m hpos hget ht hf hpx
+
+/-- **every reachable world**: whatever map a protocol history has produced, its file is well
+    formed and whatever a (full or partial) read of that file returns is well formed, sentinel
+    compatible, and has the map's orders, sentinel, blank cell and validity test; a full read
+    returns the map's arrays.  (Only the kind label is not claimed — see `FileTyped`.) -/
+theorem reachable_write_read_content (lines : List String) (n : String) (m : MapObj)
+    (hget : (runLines lines).get? n = some m) (md : List (String × String))
+    (px : Option (List Nat)) {m' : MapObj} (h : apiRead (apiWrite m md) px = .ok m') :
+    (apiWrite m md).WF ∧ m'.WF ∧ m'.SentOK ∧ m'.covord = m.covord ∧ m'.spord = m.spord ∧
+    m'.sent = m.sent ∧ m'.vc = m.vc ∧ (px = none → m'.st = m.st ∧ ∀ p, m'.abs p = m.abs p) := by
+  have hok : m.Ok := (Good.runLines lines).get hget
+  have hf := WF.apiWrite_partial md hok.1 hok.2.2
+  obtain ⟨h1, h2, h3, _, _, h6, h7, _, h9, _⟩ := apiRead_apiWrite_content hok.2.2 h
+  refine ⟨hf, WF.apiRead hf h, SentOK.apiRead h, h1, h2, h3, h7, ?_⟩
+  intro hp
+  refine ⟨h9 hp, fun p => ?_⟩
+  unfold MapObj.abs
+  rw [h6, h7, h9 hp]
+
+/-! ### non-vacuity (API level) -/
+
+section examples
+open RoundTrip
+
+/-- full round trip check of a concrete map: made by `apiMakeEmpty` + `apiUpdate`, well formed,
+    `Ok`, `FileTyped`, and every field of the map read back compared literally -/
+def rtFull (e : Except Err MapObj) : Bool :=
+  okAnd e fun m => decide m.WF && decide m.FileTyped && decide m.Ok &&
+    okAnd (apiRead (apiWrite m [("A", "B")]) none) fun m' =>
+      sameObj m' { m with cache := none, view := none }
+
+/-- (a) computed for one map of every kind: int32, wide mask, bool with sentinel `True`,
+    bit-packed, record with boolean primary, float32 -/
+example : rtFull exMapE = true ∧ rtFull exWideE = true ∧ rtFull exBoolE = true ∧
+    rtFull exPackedE = true ∧ rtFull exRecBoolE = true ∧ rtFull exFloatE = true := by
+  decide +kernel
+
+/-- (a) the theorem instantiated: its hypothesis is met by a map built through the API -/
+example : ∃ m, exRecBoolE = .ok m ∧ m.FileTyped ∧
+    apiRead (apiWrite m []) none = .ok { m with cache := none, view := none } := by
+  have h : okAnd exRecBoolE (fun m => decide m.FileTyped) = true := by decide +kernel
+  obtain ⟨m, hm, ht⟩ := okAnd_elim h
+  have ht' : m.FileTyped := of_decide_eq_true ht
+  exact ⟨m, hm, ht', api_read_write_full_partial m [] ht'⟩
+
+/-- `FileTyped` from the constructors: `make_empty` of a real dtype, then updates -/
+example (co so : Nat) (kind : Kind) (s : Option Val) (cp pix : List Nat) (vals : Option (List Val))
+    (op : String) (sg : Bool) (m m' : MapObj) (hk : kind.realDT = true)
+    (h1 : apiMakeEmpty co so kind s cp = .ok m) (h2 : apiUpdate m op pix vals sg = .ok m')
+    (md : List (String × String)) :
+    apiRead (apiWrite m' md) none = .ok { m' with cache := none, view := none } :=
+  api_read_write_full_partial m' md (FileTyped.apiUpdate (FileTyped.apiMakeEmpty hk h1) h2)
+
+/-- the counterexamples evaluated: what the reader recovers from the three untyped `Ok` objects -/
+example :
+    okAnd (apiRead (apiWrite boolSentMap []) none) (fun m' => decide (m'.kind = .plain .bool)) = true ∧
+    okAnd (apiRead (apiWrite oddDtMap []) none) (fun m' => decide (m'.kind = .plain (.int 8 true))) = true ∧
+    (match apiRead (apiWrite hugeDtMap []) none with | .error .runtime => true | _ => false) = true := by
+  decide +kernel
+
+/-- a map whose blocks are NOT in coverage-pixel order (pixel 40 set by an earlier call than
+    pixel 5) -/
+def exSwapE : Except Err MapObj := do
+  let m ← apiMakeEmpty 0 1 (.plain (.int 32 true)) none []
+  let m ← apiUpdate m "replace" [40] (some [.num 9 0]) true
+  apiUpdate m "replace" [5] (some [.num 7 0]) true
+
+/-- (b) computed: the request `[10, 3, 1, 99]` (unsorted, one uncovered, one out of range) keeps
+    both pixels and re-sorts the blocks; `[10]` keeps pixel 40 only; duplicates and a request
+    naming no covered pixel are refused with `RuntimeError` -/
+example : okAnd exSwapE (fun m =>
+    decide (m.st.cov[1]? = some 4 ∧ m.st.cov[10]? = some (-36)) &&
+    okAnd (apiRead (apiWrite m []) (some [10, 3, 1, 99])) (fun r =>
+      decide (r.WF ∧ r.abs 5 = .num 7 0 ∧ r.abs 40 = .num 9 0 ∧ r.st.cov[1]? = some 0 ∧
+        r.st.cov[10]? = some (-32) ∧ r.st.sp.size = 12)) &&
+    okAnd (apiRead (apiWrite m []) (some [10])) (fun r =>
+      decide (r.WF ∧ r.abs 5 = m.sent ∧ r.abs 40 = .num 9 0 ∧ r.st.sp.size = 8)) &&
+    (match apiRead (apiWrite m []) (some [1, 10, 1]) with | .error .runtime => true | _ => false) &&
+    (match apiRead (apiWrite m []) (some [2, 3, 99]) with | .error .runtime => true | _ => false)) = true := by
+  decide +kernel
+
+/-- (b), (c) the theorems instantiated on that map: hypotheses met, the two reads with permuted
+    requests are content-equal, and `read(pixels=[10])` is `get_single_covpix_map(10)` -/
+example : ∃ m r r', exSwapE = .ok m ∧ m.WF ∧ m.FileTyped ∧ Requested m [10, 3, 1, 99] ∧
+    apiRead (apiWrite m []) (some [10, 3, 1, 99]) = .ok r ∧
+    apiRead (apiWrite m []) (some [1, 99, 3, 10]) = .ok r' ∧
+    C10.Same m.c m.vc r.st r'.st ∧
+    apiRead (apiWrite m []) (some [10]) =
+      .ok { m with st := singleCovpixMap m.c m.vc m.st 10, cache := none, view := none } := by
+  have h : okAnd exSwapE (fun m => decide m.WF && decide m.FileTyped &&
+      decide (10 < m.c.ncov ∧ covered m.c m.st 10 = true)) = true := by decide +kernel
+  obtain ⟨m, hm, hp⟩ := okAnd_elim h
+  simp only [Bool.and_eq_true, decide_eq_true_eq] at hp
+  obtain ⟨⟨hw, ht⟩, h10, hc10⟩ := hp
+  have hreq : Requested m [10, 3, 1, 99] := ⟨10, by simp, h10, hc10⟩
+  obtain ⟨r, hr, _⟩ := api_read_pixels_spec_typed m [] [10, 3, 1, 99] hw ht (by decide) hreq
+  obtain ⟨r', hr', _, hsame⟩ := api_read_pixels_perm m [] [10, 3, 1, 99] [1, 99, 3, 10] hw ht.sentOK
+    (by decide) hr
+  exact ⟨m, r, r', hm, hw, ht, hreq, hr, hr', hsame, api_read_single_covpix m [] 10 ht h10 hc10⟩
+
+/-- (c) computed: after reading `exSwapE` back with the request `[10, 1]` the ARRAYS differ from
+    the original's (blocks re-sorted), and after the same two later calls (an `add` touching an
+    old and a new coverage pixel, then a clear) they still differ — while every pixel reads the
+    same on both; a call refused on one (`add` of a record value) is refused alike on the other -/
+example : okAnd exSwapE (fun m =>
+    okAnd (apiRead (apiWrite m []) (some [10, 1])) (fun r =>
+      decide (r.st.cov ≠ m.st.cov) &&
+      okAnd (runUpdates m [("add", [5, 30], some [.num 1 0], true), ("replace", [40], none, true)]) (fun a =>
+        okAnd (runUpdates r [("add", [5, 30], some [.num 1 0], true), ("replace", [40], none, true)]) (fun b =>
+          decide (a.st.sp ≠ b.st.sp) && decide (a.abs 5 = .num 8 0) &&
+          (List.range 48).all (fun p => decide (a.abs p = b.abs p)))) &&
+      (match runUpdates m [("add", [5], some [.recd []], true)],
+             runUpdates r [("add", [5], some [.recd []], true)] with
+       | .error e₁, .error e₂ => decide (e₁ = e₂)
+       | _, _ => false))) = true := by
+  decide +kernel
+
+/-- (c) the API-level theorems instantiated on that map: the request `[10, 1]` names every covered
+    coverage pixel, so the map read back and the original go through any calls alike -/
+example (calls : List UpdCall) : ∃ m r, exSwapE = .ok m ∧
+    apiRead (apiWrite m []) (some [10, 1]) = .ok r ∧ C10.Same m.c m.vc r.st m.st ∧
+    UpdRel r (runUpdates r calls) (runUpdates { m with cache := none } calls) := by
+  have h : okAnd exSwapE (fun m => decide m.WF && decide m.FileTyped && decide (m.view = none) &&
+      decide (∀ k, k < m.c.ncov → covered m.c m.st k = true → k ∈ [10, 1]) &&
+      decide (Requested m [10, 1])) = true := by decide +kernel
+  obtain ⟨m, hm, hp⟩ := okAnd_elim h
+  simp only [Bool.and_eq_true, decide_eq_true_eq] at hp
+  obtain ⟨⟨⟨⟨hw, ht⟩, hv⟩, hall⟩, hreq⟩ := hp
+  obtain ⟨r, hr, he, _⟩ := api_read_pixels_spec_typed m [] [10, 1] hw ht (by decide) hreq
+  obtain ⟨hc, hvc, hS⟩ := api_read_pixels_all_same m [] [10, 1] hw ht.sentOK hr hall
+  refine ⟨m, r, hm, hr, hS, ?_⟩
+  have hsame : ({ m with cache := none } : MapObj).Same r := by
+    rw [he]; exact ⟨rfl, rfl, rfl, rfl, hv⟩
+  refine runUpdates_same calls r _ hsame ?_
+  rw [hc, hvc]
+  exact hS
+
+/-- (d) the protocol history: metadata set on `m` is answered by `getmeta` on the map read back
+    (full and partial read); evaluated, since the kernel cannot run the line parser -/
+def metaHistory (readLine : String) : String :=
+  (step (runLines ["cfg m kind=plain dtype=i4 covord=0 spord=1", "upd m pix=40,5 vals=9,7",
+    "meta m k=A v=B", "write m f=F", readLine]) "getmeta q k=A").2
+
+#guard metaHistory "read f=F r=q" == "B"
+#guard metaHistory "read f=F r=q pixels=10,1" == "B"
+#guard metaHistory "read f=F r=q pixels=2,3" == "bad-op:no-such-map"   -- refused read: `q` unbound
+
+/-- (d) the theorems instantiated with concrete argument records (`write m f=F`, `read f=F r=q`,
+    `getmeta q k=A` / `getmeta m k=A`) in an arbitrary world holding a typed map under `m` -/
+example (w : World) (m : MapObj) (hget : w.get? "m" = some m) (ht : m.FileTyped) :
+    (stepArgs (stepArgs (stepArgs w "write" ⟨["m"], [("f", "F")]⟩).1 "read"
+        ⟨[], [("f", "F"), ("r", "q")]⟩).1 "getmeta" ⟨["q"], [("k", "A")]⟩).2
+      = (stepArgs w "getmeta" ⟨["m"], [("k", "A")]⟩).2 :=
+  world_getmeta_round_trip w ⟨["m"], [("f", "F")]⟩ ⟨[], [("f", "F"), ("r", "q")]⟩
+    ⟨["q"], [("k", "A")]⟩ ⟨["m"], [("k", "A")]⟩ "m" [] [] [] m _ none rfl hget
+    (by decide +kernel) (Or.inl ⟨by decide +kernel, rfl⟩)
+    (api_read_write_full_partial m _ ht) (by decide +kernel) rfl (by decide +kernel)
+
+/-- a history through (nearly) every operation that PRODUCES a map object: constructors of all
+    kinds, astype, pack, copy, union / intersection operations, degrade, upgrade, get_single
+    (copy and view), single-covpix map, file reads (full, partial, degrade-on-read, of a view),
+    MOC read, fracdet -/
+def producersHistory : List String := [
+  "cfg a kind=plain dtype=i4 covord=0 spord=2",
+  "upd a pix=5,100 vals=7,9",
+  "cfg b kind=plain dtype=i4 covord=0 spord=2",
+  "upd b pix=5,101 vals=1,2",
+  "cfg f kind=plain dtype=f4 covord=0 spord=2",
+  "upd f pix=5,6 vals=1,2",
+  "cfg bo kind=plain dtype=b1 covord=0 spord=2 sentinel=T",
+  "upd bo pix=5 val=F",
+  "cfg pk kind=packed covord=0 spord=2",
+  "upd pk pix=5 val=T",
+  "cfg wd kind=wide maxbits=12 covord=0 spord=2",
+  "upd wd pix=5 val=b1.8",
+  "cfg rc kind=rec fields=i4,f8 primary=0 covord=0 spord=2",
+  "upd rc pix=5 val=r3;2",
+  "cfg rb kind=rec fields=b1,f8 primary=0 covord=0 spord=2",
+  "astype a dtype=f8 r=af",
+  "astype a dtype=b1 r=ab",
+  "pack bo r=bp",
+  "copy a r=ac",
+  "mop maps=a,b name=sum_union r=su",
+  "mop maps=a,b name=divide_intersection r=dv",
+  "mop maps=pk,pk name=ufunc_union ufunc=bitwise_or filler=F r=pu",
+  "deg a ord=1 red=mean r=dm",
+  "deg a ord=1 red=or r=do",
+  "deg bo ord=1 red=mean r=db",
+  "deg wd ord=1 red=or r=dw",
+  "deg rc ord=1 red=mean r=dr",
+  "upg a ord=3 r=ua",
+  "single rc field=0 copy=1 r=s0",
+  "single rc field=1 copy=1 r=s1",
+  "single rc field=1 r=v1",
+  "scov a k=0 r=sc",
+  "write a f=F",
+  "read f=F r=ra",
+  "read f=F r=rp pixels=0",
+  "dor f=F ord=1 red=mean r=dd",
+  "write v1 f=G",
+  "read f=G r=rv",
+  "moc a f=M",
+  "mocread f=M covord=0 r=mm",
+  "fracdet a ord=1 r=fd"
+]
+
+
+/-- evidence (evaluated, NOT a proof) that `FileTyped` is an invariant of the protocol: in the world
+    reached by `producersHistory` every step answered `ok`, and every name resolves to a
+    `FileTyped` map whose file reads back to exactly that map -/
+def producersCheck : Bool :=
+  let w := runLines producersHistory
+  (producersHistory.foldl (fun (acc : World × Bool) l =>
+      let r := step acc.1 l; (r.1, acc.2 && (r.2 == "ok" || r.2 == "69,164"))) ({}, true)).2 &&
+  w.pool.all fun e =>
+    match w.get? e.1 with
+    | some m => decide m.FileTyped &&
+        okAnd (apiRead (apiWrite m []) none) fun m' => sameObj m' { m with cache := none, view := none }
+    | none => false
+
+#guard producersCheck
+#guard (runLines producersHistory).pool.length == 31
+
+end examples
 
 end C03
 end HS
